@@ -785,6 +785,9 @@ struct Collect {
   Ctx *c;
   std::vector<std::vector<uint8_t>> got;
   bool bad = false;
+  bool flags_mode = false;  // the handler answers with drawn event flags / error codes
+  bool called = false;
+  int answer = 0;
 };
 static int on_message(void *arg, const message *msg) {
   Collect *k = (Collect *)arg;  // library frames above: no throwing here
@@ -794,11 +797,18 @@ static int on_message(void *arg, const message *msg) {
   if (mpt_message_read(&m, n, b.data()) != n) k->bad = true;
   b.resize(n);
   k->got.push_back(b);
-  return 0;
+  k->called = true;
+  k->answer = 0;
+  if (k->flags_mode) {  // drawing is harmless here, failing is not: no VP_CHECK inside the callback
+    static const int kAnswers[] = {event::None, event::Default, event::Fail, event::Terminate, event::Terminate | event::Default, event::Fail | event::Default,
+                                   event::Terminate | event::Fail, 0x7fff0000 | event::Default /* bits outside the flag mask */, MPT_ERROR(BadArgument), MPT_ERROR(MissingData), -128};
+    k->answer = kAnswers[k->c->weighted({4, 2, 2, 5, 2, 1, 1, 1, 2, 1, 1})];
+  }
+  return k->answer;
 }
 // small: the sender's descriptor is non-blocking with the smallest send buffer the kernel grants and the harness reads its end in
 // drawn portions only, so mpt_stream_flush sees short and refused writes
-static void run_streams(Ctx &c, int fr, bool small) {
+static void run_streams(Ctx &c, int fr, bool small, bool flags_mode) {
   int a[2] = {-1, -1}, b[2] = {-1, -1};
   CObj<stream> tx, rx;
   tx->_rd._state.data.msg = -1;
@@ -826,6 +836,7 @@ static void run_streams(Ctx &c, int fr, bool small) {
   size_t todo_off = 0, mid_off = 0, frames_forwarded = 0;
   bool open = false, cut_inside = false;
   Collect col{&c};
+  col.flags_mode = flags_mode;
   size_t checked = 0;
   auto compare = [&]() {
     VP_CHECK(c, !col.bad, "message-get", "message handed to the dispatch callback could not be read completely");
@@ -893,12 +904,26 @@ static void run_streams(Ctx &c, int fr, bool small) {
     int p = mpt_stream_poll(rx, POLLIN, 0);
     c.logf("mpt_stream_poll = %d (rd len %zu max %zu)", p, rx->_rd.len, rx->_rd.max);
     for (int i = 0; i < 64; i++) {
+      col.called = false;
       int d = mpt_stream_dispatch(rx, on_message, &col);
-      c.logf("  mpt_stream_dispatch = %d", d);
+      c.logf("  mpt_stream_dispatch = %#x%s", d, col.called ? " (handler called)" : "");
+      if (col.called) c.logf("    handler answered %#x", col.answer);
       compare();
-      if (d == MPT_ERROR(MissingBuffer)) { c.label("receiver:missing-buffer"); break; }
-      if (d == MPT_ERROR(MissingData) && !rx->_rd.len) break;
+      if (d == MPT_ERROR(MissingBuffer) && !col.called) { c.label("receiver:missing-buffer"); break; }
+      if (d == MPT_ERROR(MissingData) && !col.called && !rx->_rd.len) break;
       VP_CHECK(c, d >= 0, "recv-error", "%s: mpt_stream_dispatch = %d on a well-formed stream", kName[fr], d);
+      if (col.called) {  // what the handler answered reaches the caller: flags masked with Flags, an error as CtlError (stream_dispatch.c, used by mpt_loop)
+        int want = col.answer < 0 ? (int)event::CtlError : (col.answer & event::Flags);
+        VP_CHECK(c, (d & ~event::Retry) == want, "dispatch-flags", "%s: handler answered %#x, mpt_stream_dispatch returned %#x", kName[fr], col.answer, d);
+        if (col.answer < 0) c.label("handler:error-code");
+        if (want & event::Terminate) {
+          // mpt_loop returns to the application here; it keeps using the stream afterwards: either right away (nested loop,
+          // io::stream::dispatch) or with the next poll round (second mpt_loop run)
+          c.label("handler:terminate");
+          if (c.flip()) { c.label("handler:terminate-then-dispatch-at-once"); continue; }
+          break;
+        }
+      }
       if (!(d & event::Retry)) break;
     }
   };
@@ -1004,7 +1029,8 @@ static void run(Ctx &c) {
   // appended selector ranges of the command framing (none of the committed inputs starts with one of these bytes)
   if (sel >= 0xc0 && sel < 0xe0) fr = FCommand;
   if (sel >= 0xf8) fr = FCommand;
-  if (sel >= 0xe0) { run_streams(c, fr, (sel & 0x04) != 0); return; }  // bit 2 appended: small send buffer (committed stream input: e2)
+  // bit 3 appended: the dispatch handler answers with drawn event flags (committed stream inputs: e2, e4)
+  if (sel >= 0xe0) { run_streams(c, fr, (sel & 0x04) != 0, (sel & 0x08) != 0); return; }  // bit 2 appended: small send buffer (committed stream input: e2)
   H h(c, fr);
   h.cxx = (sel & 0x08) != 0;       // appended: C++ wrapper flavour (none of the committed inputs has this selector bit)
   h.lim_mode = (sel & 0x10) != 0;  // appended: half of the queue-scenario selectors (none of the committed inputs) draw read limits for mpt_queue_load
